@@ -283,6 +283,20 @@ example :
     let w : World := [{ touched := [2], recorded := [2] }, { touched := [2], recorded := [2] }, { touched := [], recorded := [] }]
     (run w 5 (init [0, 1])).map (·.analysed) = some [0, 1, 2] := by decide
 
+/-- the queue of packages is always emptied: every package is taken from it at most once, and only
+finitely many are ever recorded -/
+theorem package_queue_terminates (w : World) (top : List Nat) : ∃ fuel s, run w fuel (init top) = some s :=
+  find_terminates w top
+
+/-- … so, unconditionally: some run finishes, and for it the packages with fast check data are the
+same for every cache state, provided every package a trace enters is recorded as a dependency -/
+theorem packages_cache_transparent_total (w : World) (top : List Nat)
+    (hrec : ∀ p q, q ∈ (w.pkg p).touched → q = p ∨ q ∈ (w.pkg p).recorded) :
+    ∃ fuel s, run w fuel (init top) = some s ∧
+      ∀ (stale stale' : Nat → Bool) (q : Nat), q ∈ outputs w stale s ↔ q ∈ outputs w stale' s := by
+  obtain ⟨fuel, s, h⟩ := find_terminates w top
+  exact ⟨fuel, s, h, fun stale stale' q => outputs_same_for_all_cache_states w top fuel s hrec h stale stale' q⟩
+
 end Packages
 
 end DG.C12
